@@ -361,6 +361,130 @@ fn shadow_exec(ops: &[Op], sound: bool, complete: bool) -> Exec {
     out
 }
 
+// ---- CHAIN sequences: handles that sit behind long, uncompressed union-find chains -------------------------------
+
+pub fn chain_max_len(tier: Tier) -> u32 {
+    match tier {
+        Tier::Quick => 3,
+        Tier::Thorough => 4,
+    }
+}
+
+pub fn chain_count(tier: Tier) -> u64 {
+    let n = alphabet("CHAIN").len() as u64;
+    (1..=chain_max_len(tier)).map(|l| n.pow(l)).sum()
+}
+
+pub fn chain_decode(mut idx: u64) -> Vec<Op> {
+    let a = alphabet("CHAIN");
+    let n = a.len() as u64;
+    let mut len = 1;
+    let mut block = n;
+    while idx >= block {
+        idx -= block;
+        len += 1;
+        block *= n;
+    }
+    let mut v = chain_prefix();
+    for _ in 0..len {
+        v.push(a[(idx % n) as usize].clone());
+        idx /= n;
+    }
+    v
+}
+
+/// The history is `chain_prefix()` followed by an ordered sequence of unions among the four one-slot leaves.  Oracle:
+/// union-find over the four leaves; two tracked terms are equal iff they agree after every leaf is replaced by its
+/// representative (all unions are between leaves over the same slot, so there is no symmetry or redundancy).  Every
+/// pair is asked as the FIRST query on its own fresh replay of the history, with the handles the insertions returned:
+/// an answer given right after `union` returns must not depend on someone having looked at the classes before.
+fn chain_exec(ops: &[Op], sound: bool, complete: bool) -> Exec {
+    let mut out = Exec::default();
+    let leaf_ops = ["h", "var", "f", "t"];
+    let mut rep: Vec<usize> = (0..4).collect();
+    let kind = |t: &T| leaf_ops.iter().position(|o| *o == t.op);
+    for o in ops {
+        if let Op::Union(l, r) = o {
+            let (a, b) = (rep[kind(l).unwrap()], rep[kind(r).unwrap()]);
+            for v in rep.iter_mut() {
+                if *v == b {
+                    *v = a;
+                }
+            }
+        }
+    }
+    fn canon(t: &T, rep: &[usize], kind: &dyn Fn(&T) -> Option<usize>) -> String {
+        if let Some(k) = kind(t) {
+            return format!("L{}", rep[k]);
+        }
+        let mut s = format!("({}", t.op);
+        for c in crate::sym::children(t) {
+            s.push(' ');
+            s += &canon(c, rep, kind);
+        }
+        s.push(')');
+        s
+    }
+    let ops2 = ops.to_vec();
+    let r = fresh_thread(move || {
+        let nm = Naming::Numeric;
+        catch(|| {
+            let replay = || {
+                let mut eg = EGraph::<Sym>::default();
+                let mut rec = Vec::new();
+                for o in &ops2 {
+                    apply_op(&mut eg, o, nm, &mut rec);
+                }
+                // the first handle of every term
+                let mut firsts: Vec<(T, AppliedId)> = Vec::new();
+                for (t, a) in rec {
+                    if !firsts.iter().any(|(x, _)| *x == t) {
+                        firsts.push((t, a));
+                    }
+                }
+                (eg, firsts)
+            };
+            let (_, firsts) = replay();
+            let n = firsts.len();
+            let mut eqs: Vec<(T, T, bool)> = Vec::new();
+            for i in 0..n {
+                for j in i..n {
+                    let (eg, f) = replay();
+                    eqs.push((f[i].0.clone(), f[j].0.clone(), eg.eq(&f[i].1, &f[j].1)));
+                }
+            }
+            eqs
+        })
+    });
+    out.traces = 1;
+    out.transitions = ops.len() as u64;
+    let hs = ops.iter().map(|o| o.show()).collect::<Vec<_>>().join(" ; ");
+    match r {
+        Err(site) | Ok(Err(site)) => {
+            out.aborted.push(site);
+            out.outcomes.push("aborted".into());
+        }
+        Ok(Ok(eqs)) => {
+            out.nontrivial = 1;
+            out.traces = eqs.len() as u64;
+            out.fps.push(fnv_str(&format!("{hs}|{:?}", eqs.iter().map(|e| e.2).collect::<Vec<_>>())));
+            let before = out.failures.len();
+            for (a, b, got) in eqs {
+                out.evaluations += 1;
+                let want = canon(&a, &rep, &kind) == canon(&b, &rep, &kind);
+                if got && !want && sound {
+                    out.fail("unsound", format!("{} == {}", a.to_sexp(), b.to_sexp()), format!("eq (first query after the history, insertion handles) reported true but the asserted equations do not imply it; history: {hs}"), &ops_strings(ops));
+                }
+                if !got && want && complete {
+                    out.fail("incomplete", format!("{} == {}", a.to_sexp(), b.to_sexp()), format!("eq (first query after the history, on the handles the insertions returned) reported false but the asserted equations imply it; history: {hs}"), &ops_strings(ops));
+                }
+            }
+            out.outcomes.push(if out.failures.len() > before { "mismatch".into() } else { "agree(chain)".into() });
+        }
+    }
+    out
+}
+
 pub struct Cong {
     pub sound: bool,
 }
@@ -464,6 +588,7 @@ impl Prop for Cong {
         let mut v: Vec<Seg> = self.segs(tier).iter().map(|s| s.seg.clone()).collect();
         let n = alphabet("SHADOW").len() as u64;
         v.push(Seg { name: "SHADOW-sequences<=3".into(), count: n + n * n + n * n * n, what: format!("one index = one ordered sequence of 1-3 operations over the {n}-operation alphabet SHADOW (terms in which a binder reuses the name of a slot that is free elsewhere in the same e-node, their alpha-variants and look-alikes that are NOT alpha-equivalent); oracle: union-find over de-Bruijn canonical forms") });
+        v.push(Seg { name: format!("CHAIN-sequences<={}", chain_max_len(tier)), count: chain_count(tier), what: "one index = 8 fixed insertions (parents of four one-slot leaves) followed by an ordered sequence of unions among the leaves (alphabet CHAIN): parent classes are absorbed by congruence one after the other, which leaves union-find chains nobody has compressed; every pair of tracked terms is asked as the first query of its own replay, on the handles the insertions returned; oracle: union-find over the four leaves".into() });
         v
     }
     fn goals(&self) -> Vec<&'static str> {
@@ -484,6 +609,9 @@ impl Prop for Cong {
         if seg == segs.len() {
             return json!({"sequence": shadow_decode(idx).iter().map(|o| o.show()).collect::<Vec<_>>()});
         }
+        if seg == segs.len() + 1 {
+            return json!({"sequence": chain_decode(idx).iter().map(|o| o.show()).collect::<Vec<_>>()});
+        }
         let ops = decode(&segs[seg], idx);
         json!({"multiset": ops.iter().map(|o| o.show()).collect::<Vec<_>>()})
     }
@@ -491,6 +619,9 @@ impl Prop for Cong {
         let segs = self.segs(tier);
         if seg == segs.len() {
             return shadow_exec(&shadow_decode(idx), self.sound, !self.sound);
+        }
+        if seg == segs.len() + 1 {
+            return chain_exec(&chain_decode(idx), self.sound, !self.sound);
         }
         let ops = decode(&segs[seg], idx);
         let flips = match tier {
